@@ -14,6 +14,8 @@ Direct oracle (O), on the real classes only:
     value in the first declared type that takes it;
   * after every step of a random sequence of public mutations (set, decode into the object, item assignment, `.value =`, Array.append,
     element / field assignment, also on nested members and through a Dynamic) `encode()` is the E5 encoding of what the object holds;
+  * a variable built / set from a python list keeps its own copy (caller edits the list; `var[i] = x` does not reach the list; rows from one
+    scratch list), and two objects generated from one structure definition never share state (index assignment on unset members included);
   * NaN is treated alike on every path (scalar, list, tuple, constructor, Dynamic, Array, decode) and an accepted NaN decodes again;
   * `set()` replaces: a second `set()` (also field-wise through item / attribute assignment on a List, also with an empty array) leaves
     exactly the second value; a Dynamic / ANYVALUE / data item given two plain values of different kinds ends like a fresh object;
@@ -540,6 +542,138 @@ def oracle_nan(res, t, bits):
             res.violate("nan-not-roundtrip", f"{t}: an accepted NaN does not come back as a NaN at the right position", case, len(enc), pos)
 
 
+def oracle_var_alias(res, t, elems, alt):
+    """a numeric / Boolean variable keeps its own copy of a python list it is built or set from: editing the list afterwards (append,
+    item assignment, clear, refilling one scratch list for several rows) does not change the variable, and `var[i] = x` does not write
+    into the caller's list.  (Binary given a *bytearray* is left out: it adopts the caller's bytearray on the unchanged tree.)"""
+    cls = K.VARCLS[t]
+    case = {"kind": "varalias", "type": t, "elems": list(elems), "alt": alt}
+    py = [_py_elem(t, e) for e in elems]
+    x = _py_elem(t, alt)
+    builders = {"constructor": lambda src: cls(src), "set": lambda src: _after_set(cls(), src),
+                "Dynamic.set": lambda src: _after_set(V.Dynamic([cls]), src),
+                "Array.set": lambda src: _after_set(V.Array(K.data_format(("leaf", t, -1))), [src])}
+    for how, build in builders.items():
+        for edit in ("append", "setitem", "clear", "var[i]=x"):
+            src = list(py)
+            try:
+                obj = build(src)
+                held, enc = K.val_of_var(obj), obj.encode()
+            except Exception:  # noqa: BLE001
+                break
+            keep = list(src)
+            try:
+                if edit == "append":
+                    src.append(x)
+                elif edit == "setitem":
+                    if not src:
+                        continue
+                    src[0] = x
+                elif edit == "clear":
+                    src.clear()
+                else:
+                    if not src or how == "Array.set":
+                        continue
+                    obj[0] = x
+                    if src != keep:
+                        res.violate("variable-aliases-argument", f"{t}: `var[0] = x` on a variable built by {how} from a list changed the caller's list",
+                                    dict(case, how=how, edit=edit), repr(keep)[:120], repr(src)[:120])
+                        return
+                    continue
+                now, enc2 = K.val_of_var(obj), obj.encode()
+            except Exception as exc:  # noqa: BLE001
+                res.violate("variable-aliases-argument", f"{t}: after the caller edited its list ({edit}) the variable built by {how} fails: {type(exc).__name__}: {exc}",
+                            dict(case, how=how, edit=edit))
+                return
+            if now != held or enc2 != enc:
+                res.violate("variable-aliases-argument", f"{t}: the variable built by {how} from a list changed when the caller edited the list ({edit})",
+                            dict(case, how=how, edit=edit), K.show_any(held)[:160], K.show_any(now)[:160])
+                return
+    # rows built from one scratch list
+    rows = [[_py_elem(t, e) for e in K.gen_elems(hlib.Rng(alt & 0xFFFF), t, len(py) or 1, "finite")] for _ in range(3)]
+    scratch, objs = [], []
+    try:
+        for r in rows:
+            scratch[:] = r
+            objs.append(cls(scratch))
+        encs = [o.encode() for o in objs]
+        want = [cls(list(r)).encode() for r in rows]
+    except Exception:  # noqa: BLE001
+        return
+    if encs != want:
+        res.violate("variable-aliases-argument", f"{t}: variables built one after the other from one refilled scratch list do not keep their own rows",
+                    dict(case, how="scratch rows"), [w.hex() for w in want][:3], [e.hex() for e in encs][:3])
+
+
+def _after_set(obj, value):
+    obj.set(value)
+    return obj
+
+
+TWIN_STRUCTS = [("leaf", "B", 1), ("leaf", "B", 3), ("rec", [("leaf", "B", 1), ("leaf", "U1", -1), ("leaf", "B", 3)]), ("arr", ("rec", [("leaf", "B", 2), ("leaf", "A", -1)]), -1),
+                ("rec", [("dyn", ["U1", "A"], -1), ("leaf", "BOOLEAN", 1), ("arr", ("leaf", "B", 1), -1)]), ("leaf", "U2", -1), ("leaf", "A", 5), ("dyn", ["B", "U1"], 2)]
+
+
+def oracle_twins(res, s, seed):
+    """isolation: two objects the library generates from ONE structure definition are independent — whatever is done to the first through
+    public paths (index assignment on still unset members included), the second stays as it was, and a third one generated afterwards is fresh"""
+    from secsgem.secs.variables import functions as vfunctions
+    rng = hlib.Rng(seed)
+    case = {"kind": "twins", "struct": js(s), "seed": seed, "ops": []}
+    try:
+        fmt = K.data_format(s)
+        a, b = vfunctions.generate(fmt), vfunctions.generate(fmt)
+        fresh0 = K.show_obj(b)
+    except Exception:  # noqa: BLE001
+        return
+
+    def check(after):
+        try:
+            nb = K.show_obj(b)
+            c = K.show_obj(vfunctions.generate(fmt))
+        except Exception as exc:  # noqa: BLE001
+            res.violate("objects-share-state", f"after {after}: a sibling object cannot be read: {type(exc).__name__}", case)
+            return False
+        if nb != fresh0 or c != fresh0:
+            res.violate("objects-share-state", f"after {after} on ONE object, {'a second object generated earlier' if nb != fresh0 else 'an object generated afterwards'} "
+                        "from the same structure is no longer in its fresh state", case, fresh0[:200], (nb if nb != fresh0 else c)[:200])
+            return False
+        return True
+    for _ in range(10):
+        nodes = []
+        _nodes(a, s, nodes)
+        node, ns, path = rng.choice(nodes)
+        k = ns[0]
+        op = fn = None
+        r = rng.below(6)
+        t = ns[1] if k == "leaf" else (rng.choice(ns[1]) if k == "dyn" and ns[1] else None)
+        if k == "leaf" and t in ("B",) + tuple(K.NUMERIC) + ("BOOLEAN",) and r < 3:
+            i = rng.below(max(ns[2], 1))
+            x = _py_elem(t, K.gen_elems(rng, t, 1, "finite")[0] or 1)
+            op, fn = f"obj{path}[{i}] = {x!r}", (lambda node=node, i=i, x=x: node.__setitem__(i, x))
+        elif k == "arr" and r < 3:
+            v = c03_value(rng, ns[1])
+            op, fn = f"obj{path}.append(...)", (lambda node=node, ns=ns, v=v: node.append(K.plain_for(ns[1], v)))
+        else:
+            v = c03_value(rng, ns)
+            if rng.chance(1, 2):
+                op, fn = f"obj{path}.set(...)", (lambda node=node, ns=ns, v=v: node.set(K.plain_for(ns, v)))
+            else:
+                op, fn = f"obj{path}.decode(...)", (lambda node=node, v=v: node.decode(K.own_encode(v), 0))
+        case["ops"].append(op)
+        try:
+            fn()
+        except Exception:  # noqa: BLE001
+            case["ops"][-1] += "  (raised)"
+        if not check(" ; ".join(case["ops"])[-300:]):
+            return
+
+
+def c03_value(rng, s):
+    import c03_fn
+    return c03_fn.gen_for(rng, s)
+
+
 def oracle_accepted(res, t, count, p):
     """the property on ANY value the implementation accepts: T(count).set(p) succeeded -> the held value has an E5 encoding,
     encode() is that encoding, and it decodes back to the held value at the right position"""
@@ -623,6 +757,10 @@ def replay_case(res, case):
         oracle_opseq(res, unjs(case["struct"]), unjs(case["val"]), case["seed"])
     elif k == "nan":
         oracle_nan(res, case["type"], int(case["bits"], 16))
+    elif k == "varalias":
+        oracle_var_alias(res, case["type"], case["elems"], case["alt"])
+    elif k == "twins":
+        oracle_twins(res, unjs(case["struct"]), case["seed"])
     elif k == "settwice":
         oracle_set_twice(res, unjs(case["struct"]), unjs(case["v1"]), unjs(case["v2"]))
     elif k == "dynseq":
@@ -1080,6 +1218,20 @@ def main():
         oracle_set(res, "F4", [b])
     for b in [K.DBL_MAX64, K.SIGN | K.DBL_MAX64, 1, 0x0010000000000000]:
         oracle_set(res, "F8", [b])
+
+    # aliasing of a python list given to a numeric / Boolean variable, both directions
+    for t in K.NUMERIC + ["BOOLEAN"]:
+        for n in (0, 1, 3):
+            es = K.gen_elems(rng, t, n, "finite")
+            oracle_var_alias(res, t, es, K.gen_elems(rng, t, 1, "finite")[0])
+            res.count(("varalias", t, tuple(es)))
+    # isolation of objects generated from one structure definition
+    for st in TWIN_STRUCTS:
+        for _ in range(3 if big else 2):
+            oracle_twins(res, st, rng.next() & 0xFFFFFFFF)
+            res.count(("twins", K.show_struct(st)))
+    for st, _v in rng.shuffle([q for q in pairs if q[0][0] in ("rec", "arr")])[: (60 if big else 20)]:
+        oracle_twins(res, st, rng.next() & 0xFFFFFFFF)
 
     # NaN (quiet / signalling, both signs) on every path of F4 and F8
     for t in ("F4", "F8"):
